@@ -97,25 +97,36 @@ Proof.
 Qed.
 
 (* ---- unregisterLocked --------------------------------------------------------------------------- *)
+Lemma raise_fence_get m k q k' :
+  iget k' (raise_fence m k q) =
+  if ikey_eqb k k' then Some (match iget k m with Some t => if t <? q then q else t | None => q end)
+  else iget k' m.
+Proof.
+  unfold raise_fence. destruct (ikey_eqb k k') eqn:E.
+  - apply ikey_eqb_spec in E. subst k'. destruct (iget k m) as [t|] eqn:G.
+    + destruct (t <? q); [apply i_get_set_same|exact G].
+    + apply i_get_set_same.
+  - assert (NE : k <> k') by (intro X; subst; rewrite ikey_eqb_refl in E; discriminate).
+    destruct (iget k m) as [t|]; [destruct (t <? q)|]; try reflexivity; apply i_get_set_other; exact NE.
+Qed.
+
 Lemma SInv_raise_tomb s k q pend oseqs next :
   SInv s -> (forall r, iget k (sl_active s) = Some r -> q < r_oseq r) ->
-  SInv (Slot (sl_target s) (sl_active s) (sl_byUID s) pend oseqs
-             (if seq_of k (sl_tomb s) <? q then al_set ikey_eqb k q (sl_tomb s) else sl_tomb s)
-             (sl_expiry s) next).
+  SInv (Slot (sl_target s) (sl_active s) (sl_byUID s) pend oseqs (raise_fence (sl_tomb s) k q) (sl_expiry s) next).
 Proof.
-  intros I H. destruct I as [H1 H2 H3 H4 H5 H6 H7].
+  intros I H. pose proof (si_tomb s I) as H7. destruct I as [H1 H2 H3 H4 H5 H6 _].
   constructor; [exact H1|exact H2|exact H3|exact H4|exact H5|exact H6|].
   intros k' r' G. cbn [sl_active] in G. pose proof (H7 _ _ G) as T. unfold tombstoned in *. cbn [sl_tomb].
-  destruct (seq_of k (sl_tomb s) <? q) eqn:L; [|exact T].
-  destruct (ikey_eq_dec k k') as [E|E].
-  - subst k'. rewrite i_get_set_same. apply N.leb_gt. apply H. exact G.
-  - rewrite i_get_set_other by exact E. exact T.
+  rewrite raise_fence_get. destruct (ikey_eqb k k') eqn:E; [|exact T].
+  apply ikey_eqb_spec in E. subst k'. specialize (H _ G). apply N.leb_gt.
+  destruct (iget k (sl_tomb s)) as [t|]; [|exact H].
+  apply N.leb_gt in T. destruct (t <? q); [exact H|exact T].
 Qed.
 
 Lemma unregisterLocked_inv s k q :
   SInv s ->
   SInv (unregisterLocked s k q) /\ sl_target (unregisterLocked s k q) = sl_target s
-  /\ sl_tomb (unregisterLocked s k q) = (if seq_of k (sl_tomb s) <? q then al_set ikey_eqb k q (sl_tomb s) else sl_tomb s).
+  /\ sl_tomb (unregisterLocked s k q) = raise_fence (sl_tomb s) k q.
 Proof.
   intro I.
   set (sR := match iget k (sl_active s) with
@@ -147,7 +158,7 @@ Proof.
                                negb (ikey_eqb (makeRouteIdentityKey (fst (snd tp))) k && (r_oseq (fst (snd tp)) <=? q)))
                             (sl_pending sR))
                     (if seq_of k (sl_ownerSeq s) <? q then al_set ikey_eqb k q (sl_ownerSeq s) else sl_ownerSeq s)
-                    (if seq_of k (sl_tomb s) <? q then al_set ikey_eqb k q (sl_tomb s) else sl_tomb s)
+                    (raise_fence (sl_tomb s) k q)
                     (sl_expiry sR) (sl_nextID sR)).
   { unfold unregisterLocked, sR. cbn [sl_active]. destruct (iget k (sl_active s)) as [ex|]; [|reflexivity].
     destruct (r_oseq ex <=? q); reflexivity. }
